@@ -398,6 +398,14 @@ def main():
                 for mode in ("item", "attr"):
                     cases.append({"text": s, "vals": {"a": 2.0, "b": 3.0, "c.d": 4.0, "k1": 0.5, "x_2": -1.5, "zero": 0.0, "a.b": 7.0, "b.c": 4.0},
                                   "mode": mode, "then": [["a", 5.0], ["zero", 1.0]]})
+            # a variable changed to a value that is == to the old one but distinguishable (the sign of a zero): every function
+            # call has to be made again, whatever it remembers of its previous arguments
+            for mode in ("item", "attr"):
+                for text in ["atan2(zero, 0-1)", "atan2(zero, k1-1)*2", "1/(atan2(zero, 0-1))", "hypot(zero, 1) + atan2(zero, 0-2)"]:
+                    cases.append({"text": text, "vals": {"a": 2.0, "b": 3.0, "c.d": 4.0, "k1": 0.5, "x_2": -1.5, "zero": 0.0},
+                                  "mode": mode, "then": [["zero", -0.0]]})
+                    cases.append({"text": text, "vals": {"a": 2.0, "b": 3.0, "c.d": 4.0, "k1": 0.5, "x_2": -1.5, "zero": -0.0},
+                                  "mode": mode, "then": [["zero", 0.0]]})
             # statements: a chain of definitions made through the deferred evaluator
             for mode in ("item", "attr"):
                 cases.append({"kind": "assign", "stmts": ["t1__ = a*2", "t2__ = t1__ + b"], "mode": mode,
@@ -423,7 +431,7 @@ def main():
             vals["zero"] = 0.0
             c = {"text": gen_sum(rng, rng.randint(1, a.depth)), "vals": vals, "mode": rng.choice(["item", "item", "attr"])}
             if rng.random() < 0.5:
-                c["then"] = [[rng.choice(VARS), rng.choice([0.0, 1.0, 2.5, -3.0])] for _ in range(rng.randint(1, 2))]
+                c["then"] = [[rng.choice(VARS), rng.choice([0.0, -0.0, 1.0, 2.5, -3.0])] for _ in range(rng.randint(1, 2))]
             if rng.random() < 0.4:
                 el = rng.choice(sorted(ELEMS))
                 c["then_el"] = [[el, rng.choice(sorted(ELEMS[el])), rng.choice([0.5, -2.0, 4.0])]]
